@@ -65,6 +65,7 @@ def run_property(pid, tier, seed):
     known = [k for k in load_known() if k.get('property') == pid]
     configs = [((), True)]
     ctxs = []
+    ctx = None
     try:
         rmod = getattr(reg[pid], '__module__', '').split('.')[-1]
         Model.guard_modules = tuple(x for x in (rmod, 'dfa' if rmod == 'rules_mem' else None, 'graph', 'rules_fsm') if x)
@@ -74,8 +75,15 @@ def run_property(pid, tier, seed):
             reg[pid](ctx)
             ctxs.append(ctx)
     except AnalysisBroken as ex:
-        print('ANALYSIS-BROKEN property=%s: %s' % (pid, ex))
-        return 2
+        if ctx is not None and ctx.findings:
+            # rules that did run reported concrete violations: those stand, whatever stopped the rest
+            print('note: the analysis of %s stopped early (%s); reporting what the rules that ran found' % (pid, ex))
+            ctx.extra['analysis_stopped_early'] = str(ex)
+            ctx.extra.pop('_separation_breach', None)
+            ctxs.append(ctx)
+        else:
+            print('ANALYSIS-BROKEN property=%s: %s' % (pid, ex))
+            return 2
     except Exception:
         traceback.print_exc()
         print('ANALYSIS-BROKEN property=%s: internal error' % pid)
